@@ -122,10 +122,34 @@ def make_graders(rng, extra):
         subgraders=StringGrader(), ordered=ordered, **cfg),
         [['full', 'x', 'z'], ['half', 'y', 'z'], ['zero', 'q', 'q'], ['q', 'q', 'q'],
          ['z', 'third', 'x'], ['tiny', 'tiny', 'tiny'], ['pinned', 'y', 'w']]))
+    # debug output is appended AFTER the note: the note must survive it (messages are compared without the log)
+    out.append(('ListDebug', lambda cfg: ListGrader(
+        answers=[answers, ('x', {'expect': 'y', 'grade_decimal': 0.25}), 'z'],
+        subgraders=StringGrader(), ordered=ordered, debug=True, **cfg),
+        [['full', 'x', 'z'], ['half', 'y', 'z'], ['q', 'q', 'q'], ['tiny', 'tiny', 'tiny']]))
+    out.append(('StringDebug', lambda cfg: StringGrader(answers=answers, wrong_msg=wrong_msg, debug=True, **cfg),
+                ['full', 'half', 'third', 'zero', 'wrong']))
+    out.append(('SingleListDebug', lambda cfg: SingleListGrader(
+        answers=(['a', 'b', 'c'], {'expect': ['d', 'e', 'f'], 'grade_decimal': 0.5, 'msg': 'alt'}),
+        subgrader=StringGrader(), debug=True, **cfg), ['a,b,c', 'a,b', 'x,y,z', 'd,e,f']))
+    # graders without configured answers, called with expect=None
+    out.append(('StringAcceptAny', lambda cfg: StringGrader(accept_any=True, **cfg), ['anything', 'x y', '']))
+    out.append(('StringAcceptNonempty', lambda cfg: StringGrader(accept_nonempty=True, **cfg), ['anything', ' x ', '']))
     out.append(('ListNoPartial', lambda cfg: ListGrader(
         answers=['a', 'b'], subgraders=StringGrader(), partial_credit=False, **cfg),
         [['a', 'b'], ['b', 'a'], ['a', 'x'], ['x', 'y']]))
     return out
+
+
+def strip_debug(msg):
+    """The message without the debug log that debug=True appends (and without the separator before it)."""
+    k = msg.find('<pre>MITx Grading Library')
+    if k < 0:
+        return msg
+    head = msg[:k]
+    while head.endswith('<br/>\n') or head.endswith('\n'):
+        head = head[:-6] if head.endswith('<br/>\n') else head[:-1]
+    return head
 
 
 def entries_of(result):
@@ -199,7 +223,9 @@ def check_grader_call(ctx, desc, build, inp, sched_desc, sched, attempt, note_fl
     if reduced:
         ctx.count('reduced_results')
         ctx.nontrivial(['grader', desc, inp, sched_desc, attempt, note_flag])
-    bmsg, gmsg = base.value[key], got.value[key]
+    bmsg, gmsg = strip_debug(base.value[key]), strip_debug(got.value[key])
+    if 'Debug' in desc:
+        ctx.count('debug_grader_calls')
     want_note = reduced and note_flag
     ctx.count('note_checked')
     if not want_note:
